@@ -255,6 +255,9 @@ def gen_case(rng):
     if st == 'embedding' and any(c is None for c in case['cells']):
         modes = ['direct']          # a missing embedding cell cannot be materialized (np.stack) - outside C03
     case['mode'] = rng.choice(modes)
+    if st in ('embedding', 'text_embedded') and case['mode'] == 'dataset' and n > 0:
+        # a second column of the embedding group placed before 'c', so that the block offsets are not trivial
+        case['extra_emb_width'] = rng.choice([None, 1, 2, 3, 7])
     return case
 
 
@@ -450,10 +453,17 @@ def run_real(case):
                     from torch_frame.config.text_embedder import TextEmbedderConfig
                     w = case['width']
                     cfg = TextEmbedderConfig(text_embedder=lambda xs: torch.ones(len(xs), w), batch_size=None)
-                    ds = Dataset(pd.DataFrame({'c': ser}), {'c': stype}, col_to_text_embedder_cfg=cfg)
+                    cols, sts = {'c': ser}, {'c': stype}
+                    if case.get('extra_emb_width'):
+                        cols['a'] = pd.Series([[0.5] * case['extra_emb_width'] for _ in range(len(ser))], index=ser.index)
+                        sts['a'] = torch_frame.embedding
+                    ds = Dataset(pd.DataFrame(cols), sts, col_to_text_embedder_cfg=cfg)
                 elif case['mode'] == 'dataset':
-                    df = pd.DataFrame({'c': ser})
-                    ds = Dataset(df, {'c': stype}, col_to_sep=sep, col_to_time_format=fmt)
+                    cols, sts = {'c': ser}, {'c': stype}
+                    if case.get('extra_emb_width'):
+                        cols['a'] = pd.Series([[0.5] * case['extra_emb_width'] for _ in range(len(ser))], index=ser.index)
+                        sts['a'] = torch_frame.embedding
+                    ds = Dataset(pd.DataFrame(cols), sts, col_to_sep=sep, col_to_time_format=fmt)
                 else:
                     df = pd.DataFrame({'c': ser, 'f': pd.Series([float(i) for i in range(len(ser))], index=ser.index)})
                     ds = Dataset(df, {'c': stype, 'f': torch_frame.numerical}, target_col='c')
